@@ -3628,7 +3628,8 @@ sexp sexp_read_raw (sexp ctx, sexp in, sexp *shares) {
       if (sexp_exceptionp(res)) {
       } else if (c2 != SEXP_NOT_A_UNIFORM_TYPE) {
         tmp = sexp_read_one(ctx, in, shares);
-        res = sexp_list_to_uvector(ctx, sexp_make_fixnum(c2), tmp);
+        res = sexp_exceptionp(tmp) ? tmp
+          : sexp_list_to_uvector(ctx, sexp_make_fixnum(c2), tmp);
         if (!sexp_exceptionp(res)) sexp_immutablep(res) = 1;
       } else {
         tmp = sexp_list2(ctx, sexp_make_character(c1), res);
